@@ -274,7 +274,7 @@ NULL_OTHER = ["1 + 2", "6 * 7", "7 / 2", "-7 % 3", "\"a\" + \"b\"", "[1, 2] + [3
 SYNTAX_ERRORS = ["1 +", "(1", "1 2", "[1,", "a b", ".a ..b", "1 ? 2", "\"open", "{1:}", "1 + * 2", ")", "", " ", "x.", "1 +\n", "a.map(", "&& true", "1 = 2", "'a' 'b'", "[1, 2,, 3]",
                  "true &&\n  (1 <", "f(,)",
                  # lexer level: characters no terminal starts with, unterminated literals
-                 "1 + @", "#", "$", "`", "|", "1 | 2", "1 & 2", "a $ b", "~1", "1 + \\", "'open", "\"unterminated\\\"", "b\"open", "r'open",
+                 "1 + @", "#", "$", "`", "|", "1 | 2", "1 & 2", "a $ b", "~1", "1 + \\", "'open", "\"unterminated", "b\"open", "r'open",
                  "\"\"\"never closed", ".a @ .b", "1 ^ 2", "x = = 1", "1 + \u00e9@"]
 
 ARG_SAMPLES = [
